@@ -12,6 +12,7 @@ fn main() {
     match args.property.as_str() {
         "probe" => probe::run(&args),
         "shrink" => probe::shrink(&args),
+        "inproc2" => c14::inproc2(&args),
         "C08" => c08::run(&args),
         "C13" => c13::run(&args),
         "C14" => c14::run(&args),
